@@ -456,17 +456,17 @@ macro_rules! ntp_duration_scalar_div {
             type Output = NtpDuration;
 
             fn div(self, rhs: $scalar_type) -> NtpDuration {
-                // No overflow risks for division
+                // Only i64::MIN / -1 can overflow; saturate like multiplication does
                 NtpDuration {
-                    duration: self.duration / (rhs as i64),
+                    duration: self.duration.saturating_div(rhs as i64),
                 }
             }
         }
 
         impl DivAssign<$scalar_type> for NtpDuration {
             fn div_assign(&mut self, rhs: $scalar_type) {
-                // No overflow risks for division
-                self.duration /= (rhs as i64);
+                // Only i64::MIN / -1 can overflow; saturate like multiplication does
+                self.duration = self.duration.saturating_div(rhs as i64);
             }
         }
     };
